@@ -326,6 +326,21 @@ func gzipBytes(b []byte) []byte {
 var respE2E = []string{"Content-Type", "ETag", "Cache-Control", "Set-Cookie", "X-Resp-A", "x-resp-lower", "Vary", "Location", "Server", "Date", "X-Resp-Multi", "Last-Modified"}
 var respVals = []string{"text/plain; charset=utf-8", "\"abc\"", "max-age=60", "k=v; Path=/", "resp value", "", "Accept-Encoding", "/elsewhere?x=1", "sim-origin", "Mon, 03 Jan 2000 00:00:00 GMT", "a, b", "caf\xe9"}
 
+// genEventLen: most events are small; some are as large as the buffers on the way (4 KiB, 32 KiB) or larger.
+func genEventLen(t *tape.Tape) int {
+	switch t.Pick(12, 1, 1, 1, 1) {
+	case 1:
+		return 4050 + t.Intn(60)
+	case 2:
+		return 5000 + t.Intn(4000)
+	case 3:
+		return 32700 + t.Intn(100)
+	case 4:
+		return 40000 + t.Intn(30000)
+	}
+	return 1 + t.Intn(200)
+}
+
 func genResp(t *tape.Tape, method string, rich bool, last bool) respSpec {
 	r := genResp0(t, method, rich, last)
 	if r.SSE { // exactly one Content-Type, the event-stream one
@@ -436,7 +451,7 @@ func genResp0(t *tape.Tape, method string, rich bool, last bool) respSpec {
 			r.SSE = true
 			k := 1 + t.Intn(5)
 			for i := 0; i < k; i++ {
-				r.Chunks = append(r.Chunks, 1+t.Intn(200))
+				r.Chunks = append(r.Chunks, genEventLen(t))
 			}
 			r.Fields = append(r.Fields, h1.Field{Name: "Content-Type", Value: "text/event-stream"})
 			if k > 1 {
@@ -451,7 +466,7 @@ func genResp0(t *tape.Tape, method string, rich bool, last bool) respSpec {
 			r.SSE = true
 			k := 1 + t.Intn(5)
 			for i := 0; i < k; i++ {
-				r.Chunks = append(r.Chunks, 1+t.Intn(200))
+				r.Chunks = append(r.Chunks, genEventLen(t))
 			}
 			r.Fields = append(r.Fields, h1.Field{Name: "Content-Type", Value: "text/event-stream"})
 		} else {
